@@ -319,6 +319,7 @@ pub struct Evidence {
 
 impl Evidence {
     pub fn new(prop: &'static str, cfg: &Cfg) -> Evidence {
+        watch::start(prop, cfg.tier_name());
         Evidence {
             prop,
             tier: cfg.tier_name(),
@@ -466,7 +467,131 @@ pub fn silence_panics() {
     std::panic::set_hook(Box::new(|_| {}));
 }
 
+// ---------------------------------------------------------------- watchdog
+/// An interpreter call that does not return cannot be unwound from inside the process. Every
+/// `guarded` call is timed; checks that run arbitrary programs note the case before running it.
+/// A call still running after XMC_HANG_S seconds (default 60; the cases take micro- to
+/// milliseconds) is reported as a violation of the property under check — the replay record is
+/// the noted case — and the process exits 1. (All limits of the implementation are supposed to
+/// stop any program; a hang on the unchanged tree would be a defect of it, not of the harness.)
+pub mod watch {
+    use std::sync::atomic::{AtomicU64, Ordering};
+    use std::sync::{Arc, Mutex, OnceLock};
+    pub struct Slot {
+        text: Mutex<String>,
+        since: AtomicU64, // ms since START + 1 while inside a guarded call; 0 = idle
+    }
+    static SLOTS: Mutex<Vec<Arc<Slot>>> = Mutex::new(Vec::new());
+    static START: OnceLock<std::time::Instant> = OnceLock::new();
+    static INFO: OnceLock<(&'static str, &'static str)> = OnceLock::new();
+    thread_local! {
+        static MY: Arc<Slot> = {
+            let s = Arc::new(Slot { text: Mutex::new(String::new()), since: AtomicU64::new(0) });
+            SLOTS.lock().unwrap().push(s.clone());
+            s
+        };
+    }
+    fn now_ms() -> u64 {
+        START.get_or_init(std::time::Instant::now).elapsed().as_millis() as u64 + 1
+    }
+    /// the case the calling thread is about to run (kept until the next note)
+    pub fn note(text: &str) {
+        MY.with(|s| {
+            let mut t = s.text.lock().unwrap();
+            t.clear();
+            t.push_str(text);
+        })
+    }
+    pub fn enter() -> bool {
+        MY.with(|s| {
+            if s.since.load(Ordering::Relaxed) == 0 {
+                s.since.store(now_ms(), Ordering::Relaxed);
+                true
+            } else {
+                false
+            }
+        })
+    }
+    pub fn leave() {
+        MY.with(|s| s.since.store(0, Ordering::Relaxed))
+    }
+    /// started once per check run (by Reporter::new)
+    pub fn start(prop: &'static str, tier: &'static str) {
+        if INFO.set((prop, tier)).is_err() {
+            return;
+        }
+        let _ = now_ms();
+        let limit_ms: u64 = std::env::var("XMC_HANG_S").ok().and_then(|s| s.parse().ok()).unwrap_or(60) * 1000;
+        std::thread::spawn(move || loop {
+            std::thread::sleep(std::time::Duration::from_millis(500));
+            let now = now_ms();
+            let slots = SLOTS.lock().unwrap().clone();
+            for s in slots {
+                let since = s.since.load(Ordering::Relaxed);
+                if since != 0 && now.saturating_sub(since) > limit_ms {
+                    let text = s.text.lock().map(|t| t.clone()).unwrap_or_default();
+                    hang(prop, tier, &text, limit_ms / 1000);
+                }
+            }
+        });
+    }
+    fn hang(prop: &str, tier: &str, text: &str, secs: u64) -> ! {
+        use super::*;
+        let case = jo(vec![
+            ("kind", js("hang")),
+            ("problem", js(format!("a call into the interpreter did not return within {} s", secs))),
+            ("case_noted_by_the_stuck_thread", js(if text.is_empty() { "(this check does not note its cases; see the check's enumeration order)".to_string() } else { text.to_string() })),
+        ]);
+        let key = "hang:interpreter-call-does-not-return";
+        let known = load_known().open.into_iter().any(|(p, k, _)| p == prop && k == key);
+        let _ = std::fs::create_dir_all(format!("{}/replays", out_dir()));
+        let path = format!("{}/replays/{}-hang.json", out_dir(), prop);
+        let _ = std::fs::write(&path, jo(vec![("property", js(prop)), ("key", js(key)), ("case", case.clone())]).to_string() + "\n");
+        let ev = J::O(vec![
+            ("property_id".to_string(), js(prop)),
+            ("tier".to_string(), js(tier)),
+            ("seed".to_string(), J::I(0)),
+            ("level".to_string(), js("model_checking")),
+            (
+                "coverage".to_string(),
+                jo(vec![
+                    ("states", ji(1)),
+                    ("transitions", ji(1)),
+                    ("traces_validated_against_impl", ji(0)),
+                    ("evaluations", ji(1)),
+                    ("distinct_nontrivial", ji(0)),
+                    ("rule", js("run aborted by the watchdog: an interpreter call did not return; counts of the aborted exploration are not available")),
+                    ("samples", J::A(vec![case.clone()])),
+                    ("exhaustive", J::B(false)),
+                    ("findings", J::A(vec![jo(vec![("key", js(key)), ("status", js("violation")), ("replay", js(path.clone()))])])),
+                ]),
+            ),
+            ("wall_s".to_string(), J::F(now_ms() as f64 / 1000.0)),
+            ("violations".to_string(), J::I(1)),
+        ]);
+        let _ = std::fs::create_dir_all(format!("{}/evidence", out_dir()));
+        let _ = std::fs::write(format!("{}/evidence/{}.json", out_dir(), prop), ev.to_string() + "\n");
+        if known {
+            println!("KNOWN-FINDING: property={} key={} (run aborted by the watchdog)", prop, key);
+            std::process::exit(0);
+        }
+        println!("VIOLATION property={} replay={}", prop, path);
+        println!("  key={} cases=1 first={}", key, truncate(&case.to_string(), 600));
+        std::process::exit(1);
+    }
+}
+
 pub fn guarded<T>(f: impl FnOnce() -> T) -> Result<T, String> {
+    let outer = watch::enter();
+    struct Leave(bool);
+    impl Drop for Leave {
+        fn drop(&mut self) {
+            if self.0 {
+                watch::leave()
+            }
+        }
+    }
+    let _l = Leave(outer);
     std::panic::catch_unwind(std::panic::AssertUnwindSafe(f)).map_err(|e| {
         if let Some(s) = e.downcast_ref::<&str>() {
             s.to_string()
@@ -608,11 +733,13 @@ pub fn limit_kinds() -> &'static (String, String, String) {
         // checks report "limit not enforced" instead of stopping here)
         let kind = |f: &dyn Fn(&mut Xstate) -> Xresult| {
             let mut xs = boot();
-            match f(&mut xs) {
-                Err(e) => err_kind(&e),
-                Ok(()) => "(this build did not refuse)".to_string(),
+            match guarded(|| f(&mut xs)) {
+                Ok(Err(e)) => err_kind(&e),
+                Ok(Ok(())) => "(this build did not refuse)".to_string(),
+                Err(_) => "(this build panicked instead of refusing)".to_string(),
             }
         };
+        watch::note("set_insn_limit(Some(3)); eval \"begin repeat\"   (a limit of each kind is provoked once to learn its error kind)");
         let insn = kind(&|xs| {
             xs.set_insn_limit(Some(3))?;
             xs.eval("begin repeat")
